@@ -281,3 +281,219 @@ Proof.
   - exfalso. unfold classify in CL. destruct (lookup _ tbl) as [[a b]|]; [|discriminate].
     destruct (negb _); [discriminate|]. destruct (_ && _ && _); discriminate.
 Qed.
+
+Lemma spec_read_suffix_wf tbl cfg st fs o r : Forall wf_frame fs -> spec_read tbl cfg st fs = Some (o, r) ->
+  Forall wf_frame r.
+Proof.
+  intros WF H. destruct (spec_read_origin tbl cfg st fs o r H) as (pre & f & E & _). subst fs.
+  apply Forall_app in WF. destruct WF as [_ W]. inversion W; assumption.
+Qed.
+
+(* successive calls (options and subscription state may change between calls) *)
+Theorem read_many_frames tbl tail tm : forall calls fs os r, Forall wf_frame fs ->
+  spec_many tbl calls fs = Some (os, r) ->
+  read_many tbl calls true (mkStream (encs fs ++ tail) tm) = (os, mkStream (encs r ++ tail) tm).
+Proof.
+  induction calls as [|c calls IH]; intros fs os r WF H.
+  - inversion H; subst. reflexivity.
+  - cbn [spec_many] in H. cbn [read_many].
+    destruct (spec_read tbl (c_cfg c) (mkR true (c_sub_all c) (c_subscribed c)) fs) as [[o fs']|] eqn:S; [|discriminate].
+    destruct (spec_many tbl calls fs') as [[os' fs'']|] eqn:M; [|discriminate]. inversion H; subst.
+    rewrite (read_frames tbl (c_cfg c) (mkR true (c_sub_all c) (c_subscribed c)) fs tail tm eq_refl WF), S. cbn [connected].
+    rewrite (IH fs' os' r (spec_read_suffix_wf _ _ _ _ _ _ WF S) M). reflexivity.
+Qed.
+
+(* a returned message is one of the queued frames, bytes unchanged *)
+Theorem read_faithful tbl cfg st fs tail tm h p st' s' : connected st = true -> Forall wf_frame fs ->
+  (forall h p st' s', read_raw tbl cfg st (mkStream tail tm) <> (OMsg h p, st', s')) ->
+  read tbl cfg st (mkStream (encs fs ++ tail) tm) = (OMsg h p, st', s') ->
+  exists f, In f fs /\ h = fh f /\ p = fp f /\ passes cfg st (hdr_type h) = true.
+Proof.
+  intros C WF NT H. rewrite (read_frames tbl cfg st fs tail tm C WF) in H.
+  destruct (spec_read tbl cfg st fs) as [[o r]|] eqn:S.
+  - inversion H; subst. destruct (spec_read_origin _ _ _ _ _ _ S) as (pre & f & E & _ & D).
+    destruct D as [(D1 & D2)|(D1 & _)]; [|discriminate].
+    symmetry in D1. apply classify_msg in D1. destruct D1 as [-> ->]. exists f. split; [|auto].
+    rewrite E. apply in_or_app. right. left. reflexivity.
+  - cbn zeta in H. destruct (read_raw tbl cfg st (mkStream tail tm)) as [[o1 st1] s1] eqn:R.
+    destruct (r_sub_all st); [inversion H; subst; exfalso; exact (NT _ _ _ _ eq_refl)|].
+    destruct o1; try (rewrite filter_loop_nonmsg in H by (intros; discriminate); discriminate).
+    exfalso. exact (NT _ _ _ _ eq_refl).
+Qed.
+
+(* ---------------- cut streams ---------------- *)
+Lemma read_nonmsg tbl cfg st s o st' s' : connected st = true -> read_raw tbl cfg st s = (o, st', s') ->
+  (forall h p, o <> OMsg h p) -> read tbl cfg st s = (o, st', s').
+Proof.
+  intros C R N. unfold read. rewrite C, R. cbn [negb]. destruct (r_sub_all st'); [reflexivity|].
+  apply filter_loop_nonmsg. exact N.
+Qed.
+
+Lemma recv_short n b tm : (length b < n)%nat ->
+  recv_waitall n (mkStream b tm) =
+  match tm with
+  | Open => RBlock
+  | Fin => RShort b (mkStream [] Fin)
+  | Rst => match b with [] => RReset (mkStream [] Fin) | _ => RShort b (mkStream [] Rst) end
+  end.
+Proof.
+  intros H. unfold recv_waitall. cbn [sbytes sterm].
+  replace (n <=? length b)%nat with false by (symmetry; apply Nat.leb_gt; exact H). reflexivity.
+Qed.
+
+Definition closed (tm : term) : bool := match tm with Open => false | _ => true end.
+Lemma select_closed t b tm : closed tm = true -> select_phase t (mkStream b tm) = None.
+Proof. destruct tm; [discriminate|..]; intros _; destruct t, b; reflexivity. Qed.
+
+(* the peer closed inside (or right before) a header *)
+Lemma raw_cut_header tbl cfg st b tm : connected st = true -> closed tm = true ->
+  (length b < Z.to_nat HEADER_SIZE)%nat ->
+  read_raw tbl cfg st (mkStream b tm) =
+  match tm, b with
+  | Rst, [] => (ORaise EConnLost, st, mkStream [] Fin)
+  | Rst, _ => (ORaise EConnLost, disconnected st, mkStream [] Rst)
+  | _, _ => (ORaise EConnLost, disconnected st, mkStream [] Fin)
+  end.
+Proof.
+  intros C CL H. unfold read_raw. rewrite C, (select_closed _ _ _ CL), (recv_short _ _ _ H). cbn [negb].
+  destruct tm; [discriminate| |]; destruct b; reflexivity.
+Qed.
+
+(* the peer closed after a complete header h announcing n > |pp| payload bytes, of which pp arrived *)
+Lemma raw_cut_payload tbl cfg st h pp tm : connected st = true -> closed tm = true ->
+  length h = Z.to_nat HEADER_SIZE -> (Z.of_nat (length pp) < hdr_nbytes h) ->
+  read_raw tbl cfg st (mkStream (h ++ pp) tm) =
+  if decodable tbl (sync_check cfg) h then
+    match tm, pp with
+    | Rst, [] => (ORaise EConnLost, st, mkStream [] Fin)
+    | Rst, _ => (ORaise EConnLost, disconnected st, mkStream [] Rst)
+    | _, _ => (ORaise EConnLost, disconnected st, mkStream [] Fin)
+    end
+  else
+    match tm, pp with
+    | Rst, [] => (ORaise EConnReset, st, mkStream [] Fin)
+    | Rst, _ => (classify tbl (sync_check cfg) (mkFrame h pp), st, mkStream [] Rst)
+    | _, _ => (classify tbl (sync_check cfg) (mkFrame h pp), st, mkStream [] Fin)
+    end.
+Proof.
+  intros C CL HL HN. unfold read_raw. rewrite C. cbn [negb].
+  replace (select_phase (timeout cfg) (mkStream (h ++ pp) tm)) with (@None outcome)
+    by (symmetry; apply select_closed; exact CL).
+  rewrite (recv_exact h pp tm _ (eq_sym HL)). unfold decodable, classify. cbn [fh fp].
+  assert (SH : (length pp < Z.to_nat (hdr_nbytes h))%nat) by lia.
+  destruct (lookup (hdr_type h) tbl) as [[tsz th]|].
+  - unfold size_guard. destruct (negb (tsz =? hdr_nbytes h)) eqn:G1.
+    + unfold drain, drain_len_size. replace (hdr_nbytes h <? 0) with false by lia.
+      rewrite (recv_short _ _ _ SH). destruct tm; [discriminate| |]; destruct pp; reflexivity.
+    + unfold version_guard.
+      destruct (sync_check cfg && negb (hdr_version h =? 0) && negb (hdr_version h =? th)) eqn:G2.
+      * unfold drain, drain_len_version. replace (hdr_nbytes h <? 0) with false by lia.
+        rewrite (recv_short _ _ _ SH). destruct tm; [discriminate| |]; destruct pp; reflexivity.
+      * apply negb_false_iff, Z.eqb_eq in G1. subst tsz.
+        replace (hdr_nbytes h =? 0) with false by lia.
+        rewrite (recv_short _ _ _ SH). destruct tm; [discriminate| |]; destruct pp; reflexivity.
+  - unfold drain, drain_len_unknown. replace (hdr_nbytes h <? 0) with false by lia.
+    rewrite (recv_short _ _ _ SH). destruct tm; [discriminate| |]; destruct pp; reflexivity.
+Qed.
+
+Lemma classify_not_decodable tbl sync h pp : decodable tbl sync h = false ->
+  forall h' p', classify tbl sync (mkFrame h pp) <> OMsg h' p'.
+Proof.
+  unfold decodable, classify. cbn [fh fp]. destruct (lookup _ tbl) as [[a b]|]; [|discriminate].
+  destruct (negb _); [discriminate|]. destruct (_ && _ && _); discriminate.
+Qed.
+
+(* after the stream has been emptied *)
+Lemma read_empty_fin tbl cfg st : connected st = true ->
+  read tbl cfg st (mkStream [] Fin) = (ORaise EConnLost, disconnected st, mkStream [] Fin).
+Proof.
+  intros C. apply read_nonmsg; [exact C| |intros; discriminate].
+  rewrite (raw_cut_header tbl cfg st [] Fin C eq_refl); [reflexivity|vm_compute; lia].
+Qed.
+Lemma read_empty_rst tbl cfg st : connected st = true ->
+  read tbl cfg st (mkStream [] Rst) = (ORaise EConnLost, st, mkStream [] Fin).
+Proof.
+  intros C. apply read_nonmsg; [exact C| |intros; discriminate].
+  rewrite (raw_cut_header tbl cfg st [] Rst C eq_refl); [reflexivity|vm_compute; lia].
+Qed.
+Lemma read_not_connected tbl cfg st s : connected st = false -> read tbl cfg st s = (ORaise ENotConnected, st, s).
+Proof. intros C. unfold read. rewrite C. reflexivity. Qed.
+
+(* a stream that ends (Fin or Rst) inside a frame: whatever the options and subscription state of the
+   next three calls are, one of them raises ConnectionLost leaving connected = False *)
+Definition cut_stream (b : list Z) : Prop :=
+  (length b < Z.to_nat HEADER_SIZE)%nat \/
+  exists h pp, b = h ++ pp /\ length h = Z.to_nat HEADER_SIZE /\ Z.of_nat (length pp) < hdr_nbytes h.
+
+Definition lost_at (os : list (outcome * bool)) (i : nat) : Prop := nth_error os i = Some (ORaise EConnLost, false).
+
+Lemma read_cut_cases tbl cfg st b tm : connected st = true -> closed tm = true -> cut_stream b ->
+  exists o st' s', read tbl cfg st (mkStream b tm) = (o, st', s') /\ (forall h p, o <> OMsg h p) /\
+    r_sub_all st' = r_sub_all st /\ r_subscribed st' = r_subscribed st /\
+    ((o = ORaise EConnLost /\ connected st' = false) \/
+     (connected st' = true /\ (s' = mkStream [] Fin \/ s' = mkStream [] Rst))).
+Proof.
+  intros C CL [H|(h & pp & -> & HL & HN)].
+  - pose proof (raw_cut_header tbl cfg st b tm C CL H) as R.
+    destruct tm; [discriminate| |]; destruct b; (do 3 eexists; split; [apply read_nonmsg; [exact C|exact R|intros; discriminate]|]);
+      (split; [intros; discriminate|]); (split; [reflexivity|]); (split; [reflexivity|]);
+      try (left; split; reflexivity); right; split; auto.
+  - pose proof (raw_cut_payload tbl cfg st h pp tm C CL HL HN) as R.
+    destruct (decodable tbl (sync_check cfg) h) eqn:D.
+    + destruct tm; [discriminate| |]; destruct pp; (do 3 eexists; split; [apply read_nonmsg; [exact C|exact R|intros; discriminate]|]);
+        (split; [intros; discriminate|]); (split; [reflexivity|]); (split; [reflexivity|]);
+        try (left; split; reflexivity); right; split; auto.
+    + pose proof (classify_not_decodable tbl (sync_check cfg) h pp D) as N.
+      destruct tm; [discriminate| |]; destruct pp;
+        (do 3 eexists; split; [apply read_nonmsg; [exact C|exact R|first [exact N|intros; discriminate]]|]);
+        (split; [first [exact N|intros; discriminate]|]); (split; [reflexivity|]); (split; [reflexivity|]);
+        right; split; auto.
+Qed.
+
+Theorem lost_eventually tbl c1 c2 c3 b tm : closed tm = true -> cut_stream b ->
+  let os := fst (read_many tbl [c1; c2; c3] true (mkStream b tm)) in
+  (lost_at os 0 \/ lost_at os 1 \/ lost_at os 2) /\
+  match nth_error os 2 with Some (_, conn) => conn = false | None => False end.
+Proof.
+  intros CL CUT. cbn [read_many].
+  destruct (read_cut_cases tbl (c_cfg c1) (mkR true (c_sub_all c1) (c_subscribed c1)) b tm eq_refl CL CUT)
+    as (o1 & st1 & s1 & R1 & _ & _ & _ & D1). rewrite R1.
+  destruct D1 as [[-> C1]|[C1 S1]].
+  - rewrite C1. rewrite !read_not_connected by reflexivity. cbn. unfold lost_at. cbn. auto.
+  - rewrite C1. destruct S1 as [-> | ->].
+    + rewrite read_empty_fin by reflexivity. cbn [connected disconnected].
+      rewrite !read_not_connected by reflexivity. cbn. unfold lost_at. cbn. auto.
+    + rewrite read_empty_rst by reflexivity. cbn [connected]. rewrite read_empty_fin by reflexivity.
+      cbn. unfold lost_at. cbn. auto.
+Qed.
+
+(* a cut frame never yields a message, whatever the peer did afterwards (including nothing yet) *)
+Lemma raw_cut_not_msg tbl cfg st b tm : cut_stream b ->
+  forall h p st' s', read_raw tbl cfg st (mkStream b tm) <> (OMsg h p, st', s').
+Proof.
+  intros CUT h0 p0 st' s'. unfold read_raw. destruct (negb (connected st)); [discriminate|].
+  destruct (select_phase_cases (timeout cfg) (mkStream b tm)) as [S|[S|S]]; rewrite S; try discriminate.
+  destruct CUT as [H|(h & pp & -> & HL & HN)].
+  - rewrite (recv_short _ _ _ H). destruct tm; [discriminate|discriminate|destruct b; discriminate].
+  - rewrite (recv_exact h pp tm _ (eq_sym HL)).
+    assert (SH : (length pp < Z.to_nat (hdr_nbytes h))%nat) by lia.
+    assert (D : forall k, (forall raw, k raw <> OMsg h0 p0) ->
+                drain (hdr_nbytes h) st (mkStream pp tm) k <> (OMsg h0 p0, st', s')).
+    { intros k Hk. unfold drain. replace (hdr_nbytes h <? 0) with false by lia. rewrite (recv_short _ _ _ SH).
+      destruct tm; [discriminate| |destruct pp]; intros E; inversion E; try discriminate; eapply Hk; eauto. }
+    destruct (lookup (hdr_type h) tbl) as [[tsz th]|]; [|apply D; intros; discriminate].
+    unfold size_guard, drain_len_size, drain_len_version, drain_len_unknown in *.
+    destruct (negb (tsz =? hdr_nbytes h)) eqn:G1; [apply D; intros; discriminate|].
+    destruct (version_guard _ _ _); [apply D; intros; discriminate|].
+    apply negb_false_iff, Z.eqb_eq in G1. subst tsz. replace (hdr_nbytes h =? 0) with false by lia.
+    rewrite (recv_short _ _ _ SH). destruct tm; [discriminate|discriminate|destruct pp; discriminate].
+Qed.
+
+(* a call that is not decided within the queued whole frames behaves like a call on the rest *)
+Lemma read_frames_none tbl cfg st fs tail tm o st' s' : connected st = true -> Forall wf_frame fs ->
+  spec_read tbl cfg st fs = None -> read_raw tbl cfg st (mkStream tail tm) = (o, st', s') ->
+  (forall h p, o <> OMsg h p) -> read tbl cfg st (mkStream (encs fs ++ tail) tm) = (o, st', s').
+Proof.
+  intros C WF S R N. rewrite (read_frames tbl cfg st fs tail tm C WF), S. cbn zeta. rewrite R.
+  destruct (r_sub_all st); [reflexivity|]. apply filter_loop_nonmsg. exact N.
+Qed.
